@@ -21,8 +21,8 @@ def cleanAfter (k : EnvId) (keep : Bool) (v : View) : Bool :=
   && v.dets.all (fun d => v.envs.any (fun E => decide (d ∈ E.dets)))
   && v.calls.all (fun c => decide (c.1 ≠ k) || decide (c.2.1 = c.2.2))
 
-/-- Hypothesis excluded by finding destroy_hooks_unreleased: the DESTROY / after_DESTROY
-    hooks of the environment sit at one weight at most. -/
+/-- Part of the hypothesis excluded by finding destroy_hooks_unreleased (fixed): the DESTROY /
+    after_DESTROY hooks of the environment sit at one weight at most. -/
 def singleWeight (hs : List HookRef) : Bool := decide ((weightsOf hs).length ≤ 1)
 
 /-- Well-formedness of the bookkeeping around environment `k` with task references `tasks`:
@@ -55,10 +55,17 @@ def hostsAgree (s : State) (tasks : List TaskId) : Bool :=
   s.roster.all (fun t => decide (t.id ∉ tasks) ||
     s.master.all (fun m => decide (m.id ≠ t.id) || decide (m.host = t.host)))
 
-/-- Hypothesis excluded by finding destroy_hooks_unreleased: the DESTROY / after_DESTROY hook
-    tasks sit at one weight at most and their roles are ACTIVE. -/
+/-- Hypothesis excluded by finding destroy_hooks_unreleased (fixed; it is still what the legacy
+    configuration needs): the DESTROY / after_DESTROY hook tasks sit at one weight at most and
+    their roles are ACTIVE. -/
 def hooksReleasable (s : State) (hooks : List HookRef) : Bool :=
   singleWeight hooks && (effHooks hooks).all (roleActive s)
+
+/-- What the second ReleaseTasks message of a teardown needs in order to name every DESTROY hook
+    task: nothing in the code as it is (it names the hook tasks of all weights, triggered or
+    not), `hooksReleasable` in a configuration with `lastWeightOnly`. -/
+def hooksOk (s : State) (hooks : List HookRef) : Bool :=
+  !s.cfg.lastWeightOnly || hooksReleasable s hooks
 
 /-- What a round's operation obliges the view after the round to satisfy. -/
 inductive Claim where
